@@ -10,8 +10,8 @@
 //   issued                            the set of ids the server has generated (grown only by KeyGenerator)
 //   s.data.Data                       the Go map a handler reads and writes through Get/Set/Delete
 //   decHas/decVal                     what gob decodes from stored bytes (enc/dec round trip assumed)
-//   sentID/sentLive                   the id announced to the client of a context (cookie or header), and
-//                                     whether it was announced as live or as expired
+//   announcedLive/announcedDead       what the response of a context tells the client about the id (cookie or header),
+//                                     macros over the fasthttp header/cookie ghosts (zz_contracts_cookie_verif.go)
 // System invariant carried by requires/ensures: every id present in the session store was issued by
 // the server (stored-only-issued), and every live Session object carries an issued id (wfSession).
 // "Never adopt" is then: a Session handed out has an issued id, and an id that already existed is only
@@ -26,8 +26,6 @@ package session
 //@ props C15
 
 //@ ghost issued map[string]bool
-//@ ghost sentID map[ref]string
-//@ ghost sentLive map[ref]bool
 
 // Lock discipline: every Lock/RLock is on a lock not held, every Unlock on a held one, and the locks named in
 // `lock` clauses are released at every exit. Concurrent use of ONE Session/Middleware object by several
@@ -105,26 +103,29 @@ package session
 //@   modifies issued
 //@   ensures fresh-id: result != "" && !old(issued)[result] && issued == old(issued)[result := true]
 
-// gob round trip: the bytes produced for a map decode to that map; decoding into a map adds the decoded
-// entries to it (encoding/gob does not clear a non-nil map).
-//@ func (*Session).encodeSessionData assumed
-//@   ensures result1 == nil ==> len(result0) > 0 && forallI(k, decHas(str(result0), k) <==> indom(s.data.Data, k)) && forallI(k, indom(s.data.Data, k) ==> decVal(str(result0), k) == s.data.Data[k])
-//@   ensures result1 != nil ==> result0 == nil
-//@ func (*Session).decodeSessionData assumed
-//@   modifies heap(MD_any_any), heap(MV_any_any)
-//@   ensures result == nil ==> forallI(k, indom(s.data.Data, k) <==> (old(indom(s.data.Data, k)) || decHas(str(rawData), k)))
-//@   ensures result == nil ==> forallI(k, s.data.Data[k] == ite(decHas(str(rawData), k), decVal(str(rawData), k), old(s.data.Data[k])))
+// gob glue. CHECKED against the bodies: the pooled buffer is empty when it is taken and when it goes back (nothing of
+// another session's bytes is encoded into or decoded from this one), the bytes returned are exactly what the encoder
+// produced, in an array of their own (the buffer goes back to the pool), an error yields no bytes; the decoder is given
+// exactly rawData. TRUSTED (not checked: the contract language cannot follow the pointer boxed into `any` that gob
+// receives): what the bytes mean - the gob round trip: the bytes produced for a map decode to that map; decoding into
+// a map adds the decoded entries to it (encoding/gob does not clear a non-nil map).
+//@ func (*Session).encodeSessionData
+//@   requires has-data: s.data != nil
+//@   modifies bufStr, gobOut
+//@   atcall @sync.(*Pool).Put: pool-invariant: isBufferPool(p) && typeis(x, *bytes.Buffer) && as(x, *bytes.Buffer) != nil && bufStr[as(x, *bytes.Buffer)] == ""
+//@   ensures exactly-the-encoder-output: result1 == nil ==> str(result0) == gobOut && len(result0) > 0
+//@   ensures own-array: result1 == nil ==> !old(allocated(arr(result0)))
+//@   ensures error-no-bytes: result1 != nil ==> result0 == nil
+//@   trusted ensures result1 == nil ==> forallI(k, decHas(gobOut, k) <==> indom(s.data.Data, k)) && forallI(k, indom(s.data.Data, k) ==> decVal(gobOut, k) == s.data.Data[k])
+//@ func (*Session).decodeSessionData
+//@   requires has-data: s.data != nil
+//@   modifies heap(MD_any_any), heap(MV_any_any), bufStr, gobIn
+//@   atcall @sync.(*Pool).Put: pool-invariant: isBufferPool(p) && typeis(x, *bytes.Buffer) && as(x, *bytes.Buffer) != nil && bufStr[as(x, *bytes.Buffer)] == ""
+//@   ensures decoder-got-exactly-the-raw-data: gobIn == old(str(rawData))
+//@   trusted ensures result == nil ==> forallI(k, indom(s.data.Data, k) <==> (old(indom(s.data.Data, k)) || decHas(gobIn, k)))
+//@   trusted ensures result == nil ==> forallI(k, s.data.Data[k] == ite(decHas(gobIn, k), decVal(gobIn, k), old(s.data.Data[k])))
 
-// Writing the cookie / header that carries the id to the client (fasthttp side not modelled):
-// setSession announces s.id as live, delSession announces the session as expired.
-//@ func (*Session).setSession assumed
-//@   modifies sentID, sentLive
-//@   ensures s.ctx != nil ==> sentID == old(sentID)[s.ctx := s.id] && sentLive == old(sentLive)[s.ctx := true]
-//@   ensures s.ctx == nil ==> sentID == old(sentID) && sentLive == old(sentLive)
-//@ func (*Session).delSession assumed
-//@   modifies sentLive
-//@   ensures s.ctx != nil ==> sentLive == old(sentLive)[s.ctx := false]
-//@   ensures s.ctx == nil ==> sentLive == old(sentLive)
+// (*Session).setSession / delSession: zz_contracts_cookie_verif.go
 
 // ---------------------------------------------------------------------------------------------
 // session.go
@@ -141,42 +142,53 @@ package session
 //@   requires wf: s.data == nil || wfSession(s)
 //@   requires stored-only-issued: s.data == nil || storedIssued(stOf(s))
 //@   lock s.mu protects lockToken
-//@   modifies s.idleTimeout, stHas, stVal, sentID, sentLive, lockToken
+//@   modifies s.idleTimeout, stHas, stVal, bufStr, gobOut, rqHdrHas, rqHdrVal, outHdr, outHdrSet, jarHas, jarVal, jarAttr, ckKey, ckVal, ckAttr, jcPath, jcExp, jcPooled, lockToken
 //@   atcall @fiber.Storage.Set: under-own-id-with-idle-ttl: key == s.id && exp == s.idleTimeout && exp > 0
+// the store may keep the slice it is given (internal/storage/memory does): it must not be the pooled buffer's storage
+//@   atcall @fiber.Storage.Set: bytes-not-shared-with-the-pooled-buffer: arr(val) == 0 || !old(allocated(arr(val)))
 //@   ensures stored: result == nil && s.data != nil ==> stHas[stOf(s)][s.id] && dataIs(s, stVal[stOf(s)][s.id])
 //@   ensures others-untouched: forallS(k, k != s.id ==> stHas[stOf(s)][k] == old(stHas[stOf(s)][k]) && stVal[stOf(s)][k] == old(stVal[stOf(s)][k])) && forallI(o, o != stOf(s) ==> stHas[o] == old(stHas[o]) && stVal[o] == old(stVal[o]))
 //@   ensures failed-keeps-store: result != nil ==> stHas == old(stHas) && stVal == old(stVal)
-//@   ensures announced: result == nil && s.data != nil && s.ctx != nil ==> sentID[s.ctx] == s.id && sentLive[s.ctx]
+//@   ensures announced: result == nil && s.data != nil && s.ctx != nil ==> announcedLive(s)
 //@   ensures stored-only-issued: s.data != nil ==> storedIssued(stOf(s))
 //@   ensures wf-kept: s.data != nil ==> wfSession(s)
 
 // Save persists unless the session is owned by the middleware of its context (then the middleware saves
-// it after the handler). Without a context it always persists. (The ownership test reads c.Locals, which is
-// not modelled; the contract only fixes what a save does when it happens.)
+// it after the handler). Without a context it always persists.
 //@ func (*Session).Save
 //@   requires unlocked: !held(s.mu)
 //@   requires wf: s.data == nil || wfSession(s)
 //@   requires stored-only-issued: s.data == nil || storedIssued(stOf(s))
-//@   modifies s.idleTimeout, stHas, stVal, sentID, sentLive, lockToken
+//@   modifies s.idleTimeout, stHas, stVal, bufStr, gobOut, rqHdrHas, rqHdrVal, outHdr, outHdrSet, jarHas, jarVal, jarAttr, ckKey, ckVal, ckAttr, jcPath, jcExp, jcPooled, lockToken
 //@   ensures contextless-persists: s.ctx == nil && result == nil && s.data != nil ==> stHas[stOf(s)][s.id] && dataIs(s, stVal[stOf(s)][s.id])
 //@   ensures persisted-or-untouched: result == nil && s.data != nil ==> (stHas[stOf(s)][s.id] && dataIs(s, stVal[stOf(s)][s.id])) || (stHas == old(stHas) && stVal == old(stVal))
 //@   ensures failed-keeps-store: result != nil ==> stHas == old(stHas) && stVal == old(stVal)
 //@   ensures others-untouched: forallS(k, k != s.id ==> stHas[stOf(s)][k] == old(stHas[stOf(s)][k]) && stVal[stOf(s)][k] == old(stVal[stOf(s)][k])) && forallI(o, o != stOf(s) ==> stHas[o] == old(stHas[o]) && stVal[o] == old(stVal[o]))
 //@   ensures stored-only-issued: s.data != nil ==> storedIssued(stOf(s))
 //@   ensures wf-kept: s.data != nil ==> wfSession(s)
+// (contract round B: c.Locals is modelled) Save of the Session a middleware manages does nothing - the middleware saves
+// it after the handler; every other Session is persisted.
+//@   ensures middleware-owned-save-is-noop: s.ctx != nil && mwLoaded(s.ctx) && mwOf(s.ctx).Session == s ==> result == nil && stHas == old(stHas) && stVal == old(stVal) && jarHas == old(jarHas) && jarVal == old(jarVal) && outHdr == old(outHdr) && outHdrSet == old(outHdrSet) && s.idleTimeout == old(s.idleTimeout)
+//@   ensures otherwise-persists: !(s.ctx != nil && mwLoaded(s.ctx) && mwOf(s.ctx).Session == s) && result == nil && s.data != nil ==> stHas[stOf(s)][s.id] && dataIs(s, stVal[stOf(s)][s.id])
+//@   ensures otherwise-announced: !(s.ctx != nil && mwLoaded(s.ctx) && mwOf(s.ctx).Session == s) && result == nil && s.data != nil && s.ctx != nil ==> announcedLive(s)
 
 // Destroy: the id no longer yields data, the handler-visible data is gone, the client is told to drop the id.
+// (frame: Middleware.destroyed is listed for the repair of the finding below - Destroy marks the managing middleware;
+// the contract language has no typed quantifier to say "of no other Middleware", so GetByID lists the field as well)
 //@ func (*Session).Destroy
 //@   requires unlocked: !held(s.mu)
 //@   requires wf: s.data == nil || wfSession(s)
 //@   lock s.mu protects lockToken
-//@   modifies s.data.Data, stHas, sentLive, lockToken
+//@   modifies s.data.Data, Middleware.destroyed, stHas, rqHdrHas, hdrCnt, jarHas, jarVal, jarAttr, ckKey, ckVal, ckAttr, jcPath, jcExp, jcPooled, lockToken
 //@   ensures id-gone: result == nil && s.data != nil ==> !stHas[stOf(s)][s.id]
 //@   ensures data-cleared: s.data != nil ==> dataEmpty(s)
 //@   ensures others-untouched: othersKept(stOf(s), s.id)
 //@   ensures failed-keeps-store: result != nil ==> stHas == old(stHas)
-//@   ensures expired-at-client: result == nil && s.data != nil && s.ctx != nil ==> !sentLive[s.ctx]
+//@   ensures expired-at-client: result == nil && s.data != nil && s.ctx != nil ==> announcedDead(s)
 //@   ensures wf-kept: s.data != nil ==> wfSession(s)
+// A session managed by the session middleware (m.Session.Destroy() called by a handler, or through (*Middleware).Destroy):
+// the middleware must know, or it saves the destroyed session again after the handler - under the same id.
+//@   ensures managed-session-marked-destroyed: result == nil && s.data != nil && s.ctx != nil && mwLoaded(s.ctx) && mwOf(s.ctx).Session == s ==> mwOf(s.ctx).destroyed
 
 // Regenerate: same data under a new server-generated id; the previous id no longer yields data.
 //@ func (*Session).Regenerate
@@ -196,7 +208,7 @@ package session
 //@ func (*Session).Reset
 //@   requires wf: wfSession(s)
 //@   lock s.mu protects lockToken
-//@   modifies s.data.Data, heap(MD_any_any), heap(MV_any_any), s.id, s.fresh, s.idleTimeout, stHas, issued, sentLive, lockToken
+//@   modifies s.data.Data, heap(MD_any_any), heap(MV_any_any), s.id, s.fresh, s.idleTimeout, stHas, issued, rqHdrHas, hdrCnt, jarHas, jarVal, jarAttr, ckKey, ckVal, ckAttr, jcPath, jcExp, jcPooled, lockToken
 //@   ensures old-id-gone: result == nil ==> !stHas[stOf(s)][old(s.id)]
 //@   ensures new-id-issued: result == nil ==> s.id != old(s.id) && !old(issued)[s.id] && s.fresh
 //@   ensures data-cleared: forallI(k, k != absKey() ==> !indom(s.data.Data, k))
@@ -204,7 +216,7 @@ package session
 //@   ensures others-untouched: othersKept(stOf(s), old(s.id))
 //@   ensures failed-keeps-id: result != nil ==> s.id == old(s.id) && stHas == old(stHas) && issued == old(issued)
 //@   ensures issued-grows: forallS(k, old(issued)[k] ==> issued[k])
-//@   ensures expired-at-client: result == nil && s.ctx != nil ==> !sentLive[s.ctx]
+//@   ensures expired-at-client: result == nil && s.ctx != nil ==> announcedDead(s)
 //@   ensures wf-kept: wfSession(s)
 
 //@ func (*Session).SetIdleTimeout
@@ -270,16 +282,54 @@ package session
 
 //@ macro pooledSession(s) = s.id == "" && s.idleTimeout == 0 && s.ctx == nil && s.config == nil && (s.data == nil || (s.data.Data != nil && dataEmpty(s)))
 
-// Assumption about sync.Pool: Get returns New() or an object that was Put and not touched since, and no
-// object is handed to two users. The Put side (pool-invariant) is proved in releaseSession.
-//@ func acquireSession assumed
+// Assumption about sync.Pool (the only one, stated on the leaf): Get returns New() or an object that was Put and not
+// touched since, and no object is handed to two users. Hence what Get returns satisfies what is proved at EVERY Put
+// on that pool (`pool-invariant` obligations of releaseSession, releaseMiddleware, encodeSessionData,
+// decodeSessionData) and of its New function (`pool-new` obligations of init$1..init$4). dataPool is never Put to.
+//@ macro sessUnlocked(s) = !held(s.mu) && (s.data == nil || (!held(s.data.RWMutex) && s.mu != s.data.RWMutex))
+//@ macro pooledData(d) = d != nil && d.Data != nil && forallI(k, !indom(d.Data, k)) && !held(d.RWMutex)
+// (the pools are named through spec functions: in an atcall clause the bare name of a struct-valued package variable
+// resolves to the variable's content, not to its address)
+//@ fn isSessionPool(p ref) bool = p == sessionPool
+//@ fn isDataPool(p ref) bool = p == dataPool
+//@ fn isBufferPool(p ref) bool = p == byteBufferPool
+//@ func @sync.(*Pool).Get(p) assumed pure allocates
+//@   ensures session-pool: isSessionPool(p) ==> typeis(result, *Session) && as(result, *Session) != nil && pooledSession(as(result, *Session)) && sessUnlocked(as(result, *Session))
+//@   ensures data-pool: isDataPool(p) ==> typeis(result, *data) && pooledData(as(result, *data))
+//@   ensures buffer-pool: isBufferPool(p) ==> typeis(result, *bytes.Buffer) && as(result, *bytes.Buffer) != nil && bufStr[as(result, *bytes.Buffer)] == ""
+//@   ensures middleware-pool: p == middlewarePool ==> typeis(result, *Middleware) && as(result, *Middleware) != nil && pooledMiddleware(as(result, *Middleware)) && !held(as(result, *Middleware).mu) && unreferenced(as(result, *Middleware))
+
+// The New functions of the pools (package initialiser closures, in source order: dataPool, middlewarePool,
+// byteBufferPool, sessionPool).
+//@ func init$1
+//@   pure
+//@   ensures pool-new: typeis(result, *data) && pooledData(as(result, *data)) && !old(allocated(as(result, *data)))
+//@ func init$2
+//@   pure
+//@   ensures pool-new: typeis(result, *Middleware) && as(result, *Middleware) != nil && pooledMiddleware(as(result, *Middleware)) && !held(as(result, *Middleware).mu)
+//@ func init$3
+//@   pure
+//@   ensures pool-new: typeis(result, *bytes.Buffer) && as(result, *bytes.Buffer) != nil
+//@ func init$4
+//@   pure
+//@   ensures pool-new: typeis(result, *Session) && as(result, *Session) != nil && pooledSession(as(result, *Session)) && sessUnlocked(as(result, *Session))
+
+//@ func acquireData panics
+//@   pure
+//@   atcall @sync.(*Pool).Get: own-pool: isDataPool(p)
+//@   ensures empty-map: pooledData(result)
+
+// acquireSession: a scrubbed Session object (nothing of its previous user) with an empty data map, marked fresh.
+//@ func acquireSession
+//@   modifies Session.data, Session.fresh
+//@   atcall @sync.(*Pool).Get: own-pool: isSessionPool(p)
 //@   ensures pooled: result != nil && pooledSession(result) && result.data != nil && result.fresh && unlocked(result)
 
 //@ func releaseSession
 //@   requires unlocked: !held(s.mu) && (s.data == nil || (!held(s.data.RWMutex) && s.mu != s.data.RWMutex))
 //@   lock s.mu protects lockToken
 //@   modifies s.id, s.idleTimeout, s.ctx, s.config, s.data.Data, lockToken
-//@   atcall @sync.(*Pool).Put: pool-invariant: pooledSession(s)
+//@   atcall @sync.(*Pool).Put: pool-invariant: isSessionPool(p) && typeis(x, *Session) && as(x, *Session) == s && pooledSession(s) && sessUnlocked(s)
 //@   ensures scrubbed: pooledSession(s)
 
 //@ func (*Session).Release
@@ -297,11 +347,14 @@ package session
 //@   ensures cookie-first: reqCookie(c, s.sessionName, epoch) != "" ==> result == reqCookie(c, s.sessionName, epoch)
 //@   ensures cookie-store-reads-only-cookie: s.source == SourceCookie ==> result == reqCookie(c, s.sessionName, epoch)
 //@   ensures query-store: s.source == SourceURLQuery && reqCookie(c, s.sessionName, epoch) == "" ==> result == reqQuery(c, s.sessionName, epoch)
+// header source: the request header named sessionName (fasthttp RequestHeader.Peek on the context's request)
+//@   ensures header-store: s.source == SourceHeader && reqCookie(c, s.sessionName, epoch) == "" ==> result == hdrPeek(reqJar(c), s.sessionName, epoch)
+//@   atcall @fasthttp.(*RequestHeader).Peek: own-request-own-name: h == reqJar(c) && key == s.sessionName
 // The id is kept in the Session and becomes a key of the storage: it must not alias the request buffer, which the
-// next request on the connection overwrites (header source: string(bytes) is a copy by construction).
+// next request on the connection overwrites. Cookie/query: utils.CopyString. Header: the Go conversion string(bytes)
+// copies by construction; `stable` is a predicate on string values that only CopyString establishes, so the clause
+// leaves that case out.
 //@   ensures id-outlives-the-request: s.source != SourceHeader || reqCookie(c, s.sessionName, epoch) != "" ==> stable(result)
-// (header source: the value is RequestHeader.Peek(sessionName) on c.Request(); a clause for it would need last(Peek),
-// which callers of getSessionID cannot evaluate - engine limitation, the header case is left open)
 
 //@ macro seesStored(sess, b) = forallI(k, (k != absKey() || !sess.fresh) ==> (indom(sess.data.Data, k) <==> decHas(b, k)) && (decHas(b, k) ==> sess.data.Data[k] == decVal(b, k)))
 
@@ -310,7 +363,7 @@ package session
 //@   requires store-wf: wfStore(s)
 //@   requires stored-only-issued: storedIssued(s.Storage)
 //@   lock sess.mu protects lockToken
-//@   modifies Session.ctx, Session.config, Session.id, Session.fresh, Session.idleTimeout, data.Data, heap(MD_any_any), heap(MV_any_any), stHas, issued, sentLive, lockToken
+//@   modifies Session.ctx, Session.config, Session.id, Session.fresh, Session.idleTimeout, Session.data, data.Data, heap(MD_any_any), heap(MV_any_any), stHas, locHas, locVal, bufStr, gobIn, issued, rqHdrHas, hdrCnt, jarHas, jarVal, jarAttr, ckKey, ckVal, ckAttr, jcPath, jcExp, jcPooled, lockToken
 //@   ensures never-adopts-unissued-id: result1 == nil ==> result0 != nil && result0.id != "" && issued[result0.id]
 //@   ensures existing-id-only-if-stored: result1 == nil && old(issued)[result0.id] ==> old(stHas)[s.Storage][result0.id]
 //@   ensures existing-id-sees-stored-data: result1 == nil && old(issued)[result0.id] ==> seesStored(result0, old(stVal)[s.Storage][result0.id])
@@ -323,17 +376,24 @@ package session
 //@   ensures stored-only-issued: storedIssued(s.Storage)
 //@   ensures wf: result1 == nil ==> wfSession(result0) && result0.config == s && result0.ctx == c
 //@   ensures error-no-session: result1 != nil ==> result0 == nil
+// The id local of the request: only getSession writes it, only with the id it has just generated and returns; an id
+// found there marks the session fresh (the client has not seen it yet), an id presented by the client does not.
+//@   ensures locals-kept-but-the-request-id: localsKeptBut(c, sidKey())
+//@   ensures request-id-changes-only-to-the-new-id: sidSet(c) != old(sidSet(c)) || locVal[c][sidKey()] != old(locVal[c][sidKey()]) ==> result1 == nil && sidSet(c) && sidStr(c) == result0.id && !old(issued)[result0.id]
+// (a new id that does not stem from the reset of an expired session - then the store changed - is recorded)
+//@   ensures new-id-recorded-for-the-request: result1 == nil && !old(issued)[result0.id] && forallS(k, stHas[s.Storage][k] == old(stHas[s.Storage][k])) ==> sidSet(c) && sidStr(c) == result0.id
+//@   ensures request-id-stays-issued: (old(sidSet(c)) ==> old(issued)[old(sidStr(c))]) ==> (sidSet(c) ==> issued[sidStr(c)])
+//@   ensures client-presented-id-fresh-iff-new: result1 == nil && !old(sidSet(c)) ==> (result0.fresh <==> !old(issued)[result0.id])
 
 //@ macro storedExpired(b) = decHas(b, absKey()) && typeis(decVal(b, absKey()), time.Time) && !tIsZero(unboxOf(decVal(b, absKey()))) && pastDeadline(unboxOf(decVal(b, absKey())), epoch)
 //@ macro errorsSet() = ErrEmptySessionID != nil && ErrSessionAlreadyLoadedByMiddleware != nil && ErrSessionIDNotFoundInStore != nil
 
-// Store.Get: like getSession, unless the middleware already owns the session of this request
-// (c.Locals is not modelled: the refusal itself is not decided here).
+// Store.Get: like getSession, unless the middleware already owns the session of this request.
 //@ func (*Store).Get
 //@   requires store-wf: wfStore(s)
 //@   requires package-errors-initialised: errorsSet()
 //@   requires stored-only-issued: storedIssued(s.Storage)
-//@   modifies Session.ctx, Session.config, Session.id, Session.fresh, Session.idleTimeout, data.Data, heap(MD_any_any), heap(MV_any_any), stHas, issued, sentLive, lockToken
+//@   modifies Session.ctx, Session.config, Session.id, Session.fresh, Session.idleTimeout, Session.data, data.Data, heap(MD_any_any), heap(MV_any_any), stHas, locHas, locVal, bufStr, gobIn, issued, rqHdrHas, hdrCnt, jarHas, jarVal, jarAttr, ckKey, ckVal, ckAttr, jcPath, jcExp, jcPooled, lockToken
 //@   ensures never-adopts-unissued-id: result1 == nil ==> result0 != nil && result0.id != "" && issued[result0.id]
 //@   ensures existing-id-only-if-stored: result1 == nil && old(issued)[result0.id] ==> old(stHas)[s.Storage][result0.id]
 //@   ensures existing-id-sees-stored-data: result1 == nil && old(issued)[result0.id] ==> seesStored(result0, old(stVal)[s.Storage][result0.id])
@@ -342,6 +402,10 @@ package session
 //@   ensures stored-only-issued: storedIssued(s.Storage)
 //@   ensures wf: result1 == nil ==> wfSession(result0) && result0.config == s && result0.ctx == c
 //@   ensures error-no-session: result1 != nil ==> result0 == nil
+// Inside a request managed by the session middleware Store.Get hands out no second Session object for the id (two
+// objects for one id would each save their own view): it fails with the documented error and touches nothing.
+//@   ensures refused-inside-middleware: old(mwLoaded(c)) ==> result0 == nil && result1 != nil && result1 == ErrSessionAlreadyLoadedByMiddleware && stHas == old(stHas) && issued == old(issued) && locHas == old(locHas) && locVal == old(locVal)
+//@   ensures locals-kept-but-the-request-id: localsKeptBut(c, sidKey())
 
 // GetByID: only an id that is in the store yields a session, with exactly the stored data; an id whose
 // absolute deadline has passed yields none and is removed.
@@ -350,7 +414,7 @@ package session
 //@   requires package-errors-initialised: errorsSet()
 //@   requires stored-only-issued: storedIssued(s.Storage)
 //@   lock sess.mu protects lockToken
-//@   modifies Session.ctx, Session.config, Session.id, Session.fresh, Session.idleTimeout, data.Data, heap(MD_any_any), heap(MV_any_any), stHas, sentLive, lockToken
+//@   modifies Middleware.destroyed, Session.ctx, Session.config, Session.id, Session.fresh, Session.idleTimeout, Session.data, data.Data, heap(MD_any_any), heap(MV_any_any), stHas, bufStr, gobIn, rqHdrHas, hdrCnt, jarHas, jarVal, jarAttr, ckKey, ckVal, ckAttr, jcPath, jcExp, jcPooled, lockToken
 //@   ensures only-stored-id: result1 == nil ==> result0 != nil && id != "" && result0.id == id && old(stHas)[s.Storage][id] && !result0.fresh
 //@   ensures sees-stored-data: result1 == nil ==> seesStored(result0, old(stVal)[s.Storage][id])
 //@   ensures expired-not-returned: result1 == nil && s.AbsoluteTimeout > 0 ==> !expiredNow(result0)
@@ -385,15 +449,22 @@ package session
 //@ macro mwInv(m) = m.Session != nil && wfSession(m.Session) && storedIssued(stOf(m.Session)) && m.mu != m.Session.mu && m.mu != m.Session.data.RWMutex
 //@ macro pooledMiddleware(m) = m.Session == nil && m.ctx == nil && !m.destroyed && m.config.Store == nil && m.config.Storage == nil
 
-// Assumption about sync.Pool (see acquireSession); the Put side is proved in releaseMiddleware.
-//@ func acquireMiddleware assumed
+// What the pool hands out is a scrubbed Middleware (sync.Pool assumption: see @sync.(*Pool).Get above); the Put
+// side is proved in releaseMiddleware, the New side in init$2.
+//@ func acquireMiddleware panics
+//@   pure
+//@   atcall @sync.(*Pool).Get: own-pool: p == middlewarePool
 //@   ensures pooled: result != nil && pooledMiddleware(result) && !held(result.mu)
+//@   ensures on-no-context: unreferenced(result)
 
+// A Middleware object that goes back to the pool must not be reachable through any context any more: the next request
+// that takes it from the pool makes it ITS session (FromContext on the old context would then read another session).
 //@ func releaseMiddleware
 //@   requires unlocked: !held(m.mu)
+//@   requires on-no-context: unreferenced(m)
 //@   lock m.mu protects lockToken
 //@   modifies heap, lockToken
-//@   atcall @sync.(*Pool).Put: pool-invariant: pooledMiddleware(m)
+//@   atcall @sync.(*Pool).Put: pool-invariant: p == middlewarePool && typeis(x, *Middleware) && as(x, *Middleware) == m && pooledMiddleware(m) && !held(m.mu) && unreferenced(m)
 //@   ensures scrubbed: pooledMiddleware(m)
 
 // Error handlers report the failure on the response; they are assumed not to touch sessions or the store.
@@ -406,7 +477,7 @@ package session
 //@ func (*Middleware).initialize panics
 //@   requires unlocked: !held(m.mu)
 //@   requires store-wf: cfg.Store != nil && wfStore(cfg.Store) && storedIssued(cfg.Store.Storage)
-//@   modifies heap, stHas, issued, sentLive, lockToken
+//@   modifies heap, stHas, locHas, locVal, bufStr, gobIn, issued, rqHdrHas, hdrCnt, jarHas, jarVal, jarAttr, ckKey, ckVal, ckAttr, jcPath, jcExp, jcPooled, lockToken
 //@   ensures owns-session: mwInv(m) && m.ctx == c && m.Session.ctx == c && m.Session.config == cfg.Store && !held(m.mu)
 //@   ensures never-adopts-unissued-id: issued[m.Session.id]
 //@   ensures existing-id-only-if-stored: old(issued)[m.Session.id] ==> old(stHas)[cfg.Store.Storage][m.Session.id]
@@ -414,12 +485,15 @@ package session
 //@   ensures new-id-is-fresh-and-empty: !old(issued)[m.Session.id] ==> m.Session.fresh && forallI(k, k != absKey() ==> !indom(m.Session.data.Data, k))
 //@   ensures expired-session-not-seen: !m.Session.fresh ==> !expiredNow(m.Session)
 //@   ensures store-only-shrinks: forallS(k, stHas[cfg.Store.Storage][k] ==> old(stHas[cfg.Store.Storage][k])) && stVal == old(stVal)
+// The middleware registers itself on the context: Store.Get refuses from now on, Session.Save of m.Session is a no-op.
+//@   ensures registered-on-the-context: mwLoaded(c) && mwOf(c) == m
+//@   ensures other-locals-kept: forallI(o, forallI(k, o != c || (k != sidKey() && k != mwKey()) ==> locHas[o][k] == old(locHas[o][k]) && locVal[o][k] == old(locVal[o][k])))
 
 // After the handler: persist under the session's id, then hand the Session object back to the pool.
 //@ macro savedAs(m, st, id) = stHas[st][id] && forallI(k, old(indom(m.Session.data.Data, k)) <==> decHas(stVal[st][id], k)) && forallI(k, decHas(stVal[st][id], k) ==> old(m.Session.data.Data[k]) == decVal(stVal[st][id], k))
 //@ func (*Middleware).saveSession
 //@   requires owns-session: mwInv(m) && !held(m.mu)
-//@   modifies Session.idleTimeout, Session.id, Session.ctx, Session.config, data.Data, stHas, stVal, sentID, sentLive, sentStatus, lockToken
+//@   modifies Session.idleTimeout, Session.id, Session.ctx, Session.config, data.Data, stHas, stVal, bufStr, gobOut, rqHdrHas, rqHdrVal, outHdr, outHdrSet, jarHas, jarVal, jarAttr, ckKey, ckVal, ckAttr, jcPath, jcExp, jcPooled, sentStatus, lockToken
 //@   atcall releaseSession: releases-own-session: s == m.Session
 //@   ensures persisted-or-failed: savedAs(m, old(stOf(m.Session)), old(m.Session.id)) || (stHas == old(stHas) && stVal == old(stVal))
 //@   ensures others-untouched: forallS(k, k != old(m.Session.id) ==> stHas[old(stOf(m.Session))][k] == old(stHas[stOf(m.Session)][k]) && stVal[old(stOf(m.Session))][k] == old(stVal[stOf(m.Session)][k])) && forallI(o, o != old(stOf(m.Session)) ==> stHas[o] == old(stHas[o]) && stVal[o] == old(stVal[o]))
@@ -435,6 +509,9 @@ package session
 //@   requires store-wf: cfg.Store != nil && wfStore(cfg.Store) && storedIssued(cfg.Store.Storage)
 //@   lock m.mu protects H_session_Middleware_destroyed inv mw-owns-session: mwInv(m)
 //@   atcall @fiber.Ctx.Next: handler-sees-issued-session: bypassed() || (called((*Middleware).initialize) && mwInv(last(acquireMiddleware)) && last(acquireMiddleware).Session.ctx == c)
+// ... and with the middleware registered on the context: a Store.Get by the handler is refused, Session.Save of the
+// managed session is left to the middleware (clauses refused-inside-middleware / middleware-owned-save-is-noop)
+//@   atcall @fiber.Ctx.Next: middleware-registered-for-the-handler: bypassed() || (mwLoaded(c) && mwOf(c) == last(acquireMiddleware))
 //@   atcall (*Middleware).saveSession: destroyed-session-not-saved: !destroyed && m == last(acquireMiddleware)
 //@   atcall releaseMiddleware: saved-unless-destroyed: (destroyed || called((*Middleware).saveSession)) && m == last(acquireMiddleware)
 //@   ensures handler-runs-once: nextCalls == 1
@@ -464,18 +541,18 @@ package session
 //@ func (*Middleware).Destroy
 //@   requires unlocked: !held(m.mu)
 //@   lock m.mu protects H_session_Middleware_destroyed inv mw-owns-session: mwInv(m)
-//@   modifies Middleware.destroyed, data.Data, stHas, sentLive, lockToken
+//@   modifies Middleware.destroyed, data.Data, stHas, rqHdrHas, hdrCnt, jarHas, jarVal, jarAttr, ckKey, ckVal, ckAttr, jcPath, jcExp, jcPooled, lockToken
 //@   ensures marked-destroyed: m.destroyed
 //@   ensures id-gone: result == nil ==> !stHas[stOf(m.Session)][m.Session.id]
 //@   ensures data-cleared: dataEmpty(m.Session)
 //@   ensures others-untouched: othersKept(stOf(m.Session), m.Session.id)
-//@   ensures expired-at-client: result == nil && m.Session.ctx != nil ==> !sentLive[m.Session.ctx]
+//@   ensures expired-at-client: result == nil && m.Session.ctx != nil ==> announcedDead(m.Session)
 
 // Reset: see (*Session).Reset (where the missing absolute deadline is reported).
 //@ func (*Middleware).Reset
 //@   requires unlocked: !held(m.mu)
 //@   lock m.mu protects lockToken inv mw-owns-session: mwInv(m)
-//@   modifies lockToken, data.Data, heap(MD_any_any), heap(MV_any_any), Session.id, Session.fresh, Session.idleTimeout, stHas, issued, sentLive
+//@   modifies lockToken, data.Data, heap(MD_any_any), heap(MV_any_any), Session.id, Session.fresh, Session.idleTimeout, stHas, issued, rqHdrHas, hdrCnt, jarHas, jarVal, jarAttr, ckKey, ckVal, ckAttr, jcPath, jcExp, jcPooled
 //@   ensures old-id-gone: result == nil ==> !stHas[stOf(m.Session)][old(m.Session.id)]
 //@   ensures new-id-issued: result == nil ==> issued[m.Session.id] && !old(issued)[m.Session.id] && m.Session.fresh
 //@   ensures data-cleared: forallI(k, k != absKey() ==> !indom(m.Session.data.Data, k))
@@ -497,11 +574,18 @@ package session
 //@   ensures absolute-not-below-idle: result.AbsoluteTimeout <= 0 || result.AbsoluteTimeout >= result.IdleTimeout
 //@   ensures storage-as-given: len(config) > 0 ==> result.Storage == config[0].Storage
 
-// RegisterType only talks to encoding/gob.
-//@ func (*Store).RegisterType assumed pure
+// RegisterType only talks to encoding/gob: the dynamic type of i joins gob's registry (deps/mw_C15.spec), nothing else
+// changes.
+//@ func (*Store).RegisterType
+//@   modifies gobReg
+//@   ensures registered: gobReg[tagof(i)]
+//@   ensures registry-only-grows: forallI(t, old(gobReg)[t] ==> gobReg[t])
 
 //@ func NewStore
 //@   requires defaults-as-declared: defaultsSane()
 //@   ensures store-wf: wfStore(result)
 //@   ensures absolute-not-below-idle: result.AbsoluteTimeout <= 0 || result.AbsoluteTimeout >= result.IdleTimeout
 //@   ensures given-storage-kept: len(config) > 0 && config[0].Storage != nil ==> result.Storage == config[0].Storage
+// With an absolute timeout the deadline travels inside the session data: its key and value types must be known to gob,
+// or every Save of such a session fails.
+//@   ensures deadline-types-registered: result.AbsoluteTimeout > 0 ==> gobReg[tagof(absKey())] && forallI(x, typeis(x, time.Time) ==> gobReg[tagof(x)])
